@@ -612,6 +612,11 @@ pub fn run_type<T: Reg>(e: &Entry, s: &mut Src, ctx: &mut Ctx) -> CaseResult {
             "{tname}: to_bytes of the round-tripped value differs: {bytes_v:?} vs {bytes_1:?}"
         );
 
+        if let Ok(b) = &bytes_v {
+            if b.len() > 8192 {
+                ctx.label("value:encoding-over-8KiB");
+            }
+        }
         // ---- 2. sites
         let mut sites: Vec<Site> = vec![];
         let mut facts = Facts::default();
@@ -829,10 +834,11 @@ fn main() {
         "valid:vec-one-less:accepted",
         "valid:some-to-none:accepted",
     ]);
+    required.push("value:encoding-over-8KiB");
     let required: &'static [&'static str] = Box::leak(required.into_boxed_slice());
     let rule: &'static str = Box::leak(
         format!(
-            "a case = one of the {} registered types (every #[streamable] class of chia-protocol read from /repo's sources at build time, ConsensusConstants, SpendConditions, SpendBundleConditions, the DataLayer records, the protocol enums, Bytes/BytesN/Program, the four BLS element classes, all integer widths incl. u128/i128, bool, String and Option/Vec/tuple/array combinations) chosen uniformly, a value generated field by field from the choice sequence (integers biased to 0, 2^k and the extremes of their width; version-packed classes made well-formed), its round trip through to_json_dict/from_json_dict, and {} single-node edits of the JSON (invalid ones must raise, valid ones must be accepted and yield exactly the edited JSON). Non-trivial = at least one invalid edit was asserted to raise and the value's encoding is not all zeros; distinct by (type, byte encoding).",
+            "a case = one of the {} registered types (every #[streamable] class of chia-protocol read from /repo's sources at build time, ConsensusConstants, SpendConditions, SpendBundleConditions, the DataLayer records, the protocol enums, Bytes/BytesN/Program, the four BLS element classes, all integer widths incl. u128/i128, bool, String and Option/Vec/tuple/array combinations) chosen uniformly, a value generated field by field from the choice sequence (integers biased to 0, 2^k and the extremes of their width; byte strings and program atoms mostly short, about one in a hundred 1-100 KB around powers of two; version-packed classes made well-formed), its round trip through to_json_dict/from_json_dict, and {} single-node edits of the JSON (invalid ones must raise, valid ones must be accepted and yield exactly the edited JSON). Non-trivial = at least one invalid edit was asserted to raise and the value's encoding is not all zeros; distinct by (type, byte encoding).",
             reg.len(),
             N_OPS
         )
